@@ -198,9 +198,11 @@ pub enum Kind {
     PlainDense,
     /// FlaggedStorage<_, DenseVecStorage<_>> of a component type without drop glue
     PlainFlagDense,
+    /// DefaultVecStorage of a component type without drop glue
+    PlainDefault,
 }
 
-pub const ALL_KINDS: [Kind; 20] = [
+pub const ALL_KINDS: [Kind; 21] = [
     Kind::Vec,
     Kind::Dense,
     Kind::DefaultVec,
@@ -221,6 +223,7 @@ pub const ALL_KINDS: [Kind; 20] = [
     Kind::DerefNull,
     Kind::PlainDense,
     Kind::PlainFlagDense,
+    Kind::PlainDefault,
 ];
 
 impl Kind {
@@ -263,8 +266,11 @@ pub struct PVal {
 
 impl PVal {
     pub fn new(payload: u32) -> PVal {
+        Self::construct(payload, false)
+    }
+    fn construct(payload: u32, placeholder: bool) -> PVal {
         let serial = with_ledger(|l| {
-            l.state.push((St::Plain, false));
+            l.state.push((St::Plain, placeholder));
             l.state.len() as u64
         });
         PVal { serial, canary: serial ^ MAGIC, payload }
@@ -287,7 +293,7 @@ impl PVal {
 
 impl Default for PVal {
     fn default() -> Self {
-        PVal::new(0)
+        PVal::construct(0, true)
     }
 }
 
@@ -372,6 +378,7 @@ macro_rules! plain_comp {
 
 plain_comp!(CPlainDense, Kind::PlainDense, DenseVecStorage<Self>);
 plain_comp!(CPlainFlagDense, Kind::PlainFlagDense, FlaggedStorage<Self, DenseVecStorage<Self>>);
+plain_comp!(CPlainDefault, Kind::PlainDefault, DefaultVecStorage<Self>);
 
 /// Zero-sized components (for `NullStorage`, bare and inside the tracking wrappers); instances are
 /// counted, not individually tracked.
@@ -465,6 +472,7 @@ macro_rules! with_kind {
             $crate::zoo::Kind::DerefNull => $f::<$crate::zoo::CDerefNull>($($args),*),
             $crate::zoo::Kind::PlainDense => $f::<$crate::zoo::CPlainDense>($($args),*),
             $crate::zoo::Kind::PlainFlagDense => $f::<$crate::zoo::CPlainFlagDense>($($args),*),
+            $crate::zoo::Kind::PlainDefault => $f::<$crate::zoo::CPlainDefault>($($args),*),
         }
     };
 }
